@@ -19,7 +19,7 @@ from vlib import cli, core
 META = {
     "level": "proof",
     "technique": "Coq theorem on a Gallina model of collect_items/create_entry and extract_entry over an abstract file system (entry transport through the container assumed lossless = property C01); model tied to the code by differential execution of the real `pna create` / `pna extract` on generated trees and option vectors",
-    "level_text": "tree_of (extract_all (create_from_tree opts order tree) empty_dir) = expected opts tree is proved in Coq for the model (walk order any parents-first enumeration of a tree of regular kinds with well-formed names); the real binary is run on generated trees under option vectors covering the property's product and its extracted tree is compared both with the source tree and with the model's prediction.",
+    "level_text": "Proved in Coq (closed): the name stored for a walked path is read back as exactly its components; for every well-formed tree, walk order and option set the extractor receives exactly the collected items (directories only with --keep-dir) in walk order under their own paths, with lossless transport of the entry list (C01/C04) as a named hypothesis; the complete statement tree_of (extract_all (create_from_tree ..) empty_dir) = expected is evaluated in the kernel on a tree with nested/empty directories, an empty file, xattrs and three kinds of symbolic links, with all keep options and with none. Partial: the complete statement for all trees is not proved; it rests on the differential runs: the real `pna create` / `pna extract` (file, --split, stdio pipe, stdio -f; every codec, cipher, KDF, solid; keep flags on either side) on generated trees, the extracted tree compared with the source tree (implementation-side oracle) and with the model's prediction (60 / 2 000 histories).",
     "level_note": "Trusted: Coq kernel; extraction and driver (sample re-evaluated in the kernel); the assumption that the container transports the logical entry list losslessly (C01, C04 for --split) enters the theorem as a named hypothesis; kernel file system semantics, the `ignore` walker (its order is read back from the archive) and xattr support of the sandbox file system are outside. Directory / symlink mtimes are not restored by the tool and not checked.",
 }
 
